@@ -329,7 +329,7 @@ class C12(Check):
             return [float(o.choice(lat[d])) for d in range(dim)]
         ops = []
         w = {"single": o.choice([1, 3, 5]), "batch": o.choice([1, 3, 5]), "vec2d": o.choice([0, 1, 2]), "vec3d": o.choice([0, 1]),
-             "reset": o.choice([0, 1, 1]), "cache_off": o.choice([0, 0, 1]), "query": o.choice([0, 1])}
+             "reset": o.choice([0, 1, 1]), "cache_off": o.choice([0, 0, 1]), "query": o.choice([0, 1]), "foreign": o.choice([0, 0, 1])}
         kinds = [k for k, v in w.items() for _ in range(v)]
         for _ in range(o.randint(1, 30 if tier == "quick" else 50)):
             k = o.choice(kinds)
@@ -355,6 +355,9 @@ class C12(Check):
             elif k == "vec3d":
                 ncol = o.choice([1, 3])
                 ops.append(["vec3d", [[pt() for _ in range(ncol)] for _ in range(o.choice([1, 2, 4]))]])
+            elif k == "foreign":
+                # another live object of the same family (other parameters) is evaluated at points this object has seen or will see
+                ops.append(["foreign", [pt() for _ in range(o.choice([1, 3, 6]))], o.choice(["batch", "single", "reset"])])
             else:
                 ops.append([k])
         nb = 0 if (spec[0] in NO_INTEGRAL or (spec[0] == "FunctionDiagonalDiscont" and dim > 3)) else o.choice([1, 1, 2])
@@ -397,6 +400,7 @@ class C12(Check):
         model = set()
         cache_on = True
         counter_armed = True
+        foreign = None
 
         def ref(p):
             return np.atleast_1d(np.asarray(twin.eval(tuple(p)), dtype=float)).reshape(-1)
@@ -449,6 +453,29 @@ class C12(Check):
                 flat = [p for row in rows for p in row]
                 ctx.probe("vectorized_3d")
                 cmp(f.eval_vectorized(np.array(rows, dtype=dt)), flat, "vec3d")
+            elif k == "foreign":
+                # foreign activity: a second object of the same class with its own parameters and its own cache takes a turn;
+                # nothing it evaluates, caches or resets may show in this object's values or counter
+                if foreign is None:
+                    try:
+                        rr = stream(sched["rk"], "foreign_spec")
+                        foreign = build(_with_dim(rr, gen_spec(rr, fam), dim))
+                    except Exception:
+                        foreign = False
+                if foreign:
+                    ctx.probe("foreign_object_took_a_turn"); ctx.fault("foreign_activity")
+                    try:
+                        if op[2] == "batch":
+                            foreign([tuple(p) for p in op[1]])
+                        elif op[2] == "single":
+                            for p in op[1]:
+                                foreign(tuple(p))
+                        else:
+                            foreign([tuple(p) for p in op[1]]); foreign.reset_dictionary()
+                    except Exception as e:
+                        if getattr(e, "harness", False):
+                            raise
+                        foreign = False      # the foreign object's own troubles (its parameters, its domain) are not this run's subject
             elif k == "reset":
                 f.reset_dictionary()
                 model = set()
